@@ -148,6 +148,13 @@ pub fn depth1() -> Vec<Ty> {
         }
     }
     out.insert(Ty::Struct(vec![]));
+    // field names that start like keywords or type names (the grammar's `ident` has a negative
+    // look-ahead for restricted keywords followed by a non-identifier character)
+    for names in [["mutable", "structure"], ["anything", "int2"], ["return5", "truex"], ["_x", "a_b9"], ["modx", "forx"], ["boolean", "stringy"], ["floaty", "whiley"]] {
+        out.insert(Ty::Struct(vec![(names[0].into(), Ty::Int), (names[1].into(), Ty::Str)]));
+        out.insert(Ty::Mut(Box::new(Ty::Struct(vec![(names[0].into(), Ty::Union(vec![Ty::Int, Ty::Str]))]))));
+        out.insert(Ty::Fun(vec![Ty::Struct(vec![(names[1].into(), Ty::Any)])], Box::new(Ty::Struct(vec![(names[0].into(), Ty::Void)]))));
+    }
     for t in &small {
         for u in &small {
             for v in &small {
